@@ -25,6 +25,7 @@ type Case struct {
 	FEN  string   `json:"fen"`
 	Path []string `json:"path"`
 	Tree int      `json:"tree"`
+	From int      `json:"from,omitempty"` // levels below this index are only stepped through (long games)
 }
 
 var ms = move.NewStore()
@@ -150,9 +151,11 @@ func checkCase(c Case, rec *evid.Rec) error {
 		r    board.Reverse
 	}
 	var stack []frame
-	for _, s := range c.Path {
-		if err := level(b, st); err != nil {
-			return err
+	for i, s := range c.Path {
+		if i >= c.From {
+			if err := level(b, st); err != nil {
+				return err
+			}
 		}
 		f := frame{snap: b.VerifSnapshot()}
 		if s == "null" {
@@ -227,6 +230,28 @@ func TestC03(t *testing.T) {
 			}
 			if err := checkCase(c, rec); err != nil {
 				rec.Fail("undo", err.Error(), c)
+				t.Fatalf("%v", err)
+			}
+		})
+		rec.Rapid(t, "long_game", evid.Pick(1200, 15000), func(t *rapid.T) {
+			// long, mostly reversible games: hash histories beyond 128 entries, halfmove clocks beyond 100 and 127
+			root, _ := gen.Root(t)
+			if gen.Chance(t, 1, 2, "startpos") {
+				root = refchess.MustFEN(gen.StartFEN)
+			}
+			root.Half = 0
+			ms, _ := gen.LongShuffle(t, root, 100, 260)
+			c := Case{FEN: root.FEN()}
+			for _, m := range ms {
+				c.Path = append(c.Path, m.String())
+			}
+			c.From = max(0, len(c.Path)-gen.Draw(t, 1, 40, "tail"))
+			rec.Class("long_game")
+			if len(c.Path) >= 128 {
+				rec.Class("history>=128")
+			}
+			if err := checkCase(c, rec); err != nil {
+				rec.Fail("long_game", err.Error(), c)
 				t.Fatalf("%v", err)
 			}
 		})
